@@ -164,6 +164,25 @@ def run_trading(rnd, S, cfgk, intensity=1.0, script=None, analyser=False, ids=No
         import rqalpha.api as api
         env = Environment.get_instance()
         out = []
+        if phase == "AUC" and plan.get("generic") and plan["fut"] and plan["bars"] == 1 and reseed_key is None:
+            # second day's auction: yesterday's 2 lots + 3 lots opened at the open; then through the generic submit_order a CLOSE of all 5
+            # and a CLOSE_TODAY of today's 3, both priced to rest in the auction and to fill on the day bar — together more than is held
+            oid, side = plan["fut"]
+            frec = next(x for x in S["futures"] if x["id"] == oid)
+            try:
+                bar = frec["bars"].get(S["cal"].index(env.trading_dt.date()))
+            except ValueError:
+                bar = None
+            if bar is not None and bar[5] >= 20 and ((side == "long" and bar[2] >= bar[1] + 2) or (side == "short" and bar[2] <= bar[1] - 2)):
+                def fg(call, before, oid=oid, side=side, lim=float(round((bar[1] + bar[2]) / 2))):
+                    call.update(api="plan_future_generic_close", args=(oid, side, lim))
+                    r0 = (api.buy_open if side == "long" else api.sell_open)(oid, 3)
+                    cside = SIDE.SELL if side == "long" else SIDE.BUY
+                    r1 = api.submit_order(oid, 5, cside, price=lim, position_effect=POSITION_EFFECT.CLOSE)
+                    r2 = api.submit_order(oid, 3, cside, price=lim, position_effect=POSITION_EFFECT.CLOSE_TODAY)
+                    return [r0, r1, r2]
+                out.append(fg)
+            return out
         if phase != "BAR":
             return out
         plan["bars"] += 1
@@ -172,6 +191,7 @@ def run_trading(rnd, S, cfgk, intensity=1.0, script=None, analyser=False, ids=No
             plan["fut"], plan["cash_edge_day"] = (), 0      # a resumable (stateless) strategy has no multi-day plan
         if plan["fut"] is None:
             plan["fut"] = (srnd.choice(futs), srnd.choice(["long", "short"])) if (futs and "FUTURE" in context.portfolio.accounts and srnd.random() < 0.6) else ()
+            plan["generic"] = bool(S.get("_plan_generic_close")) and srnd.random() < 0.35
             plan["cash_edge_day"] = srnd.randrange(1, 5) if (stocks and "STOCK" in context.portfolio.accounts and srnd.random() < 0.5) else 0
         if plan["fut"]:
             oid, side = plan["fut"]
@@ -181,6 +201,8 @@ def run_trading(rnd, S, cfgk, intensity=1.0, script=None, analyser=False, ids=No
                     call.update(api="plan_future_open", args=(oid, side, 2))
                     return [open_fn(oid, 2)]
                 out.append(f1)
+            elif day == 2 and plan.get("generic"):
+                pass
             elif day == 2:
                 def f2(call, before, oid=oid, side=side, open_fn=open_fn, close_fn=close_fn):
                     # yesterday's 2 lots + 1 lot opened now; a resting close of 2 lots commits the old part; then close 3: the API splits it
